@@ -213,8 +213,13 @@ func runRouter(tb *model.Table, hist []req) string {
 		if keys2 := cache.VerifKeys(); !reflect.DeepEqual(keys, keys2) {
 			return fmt.Sprintf("immediate repeat changed the cache keys from %q to %q: %s", keys, keys2, ctx)
 		}
-		if got, ok := cache.Get(want); !ok || got.Name() != rt.Name() {
+		entry, ok := cache.Get(want)
+		if !ok || entry.Name() != rt.Name() {
 			return fmt.Sprintf("entry %q is not the route that answered: %s", want, ctx)
+		}
+		// "an immediate repeat is answered from the cache": what the repeat returned is the cached entry itself
+		if rt2 != entry {
+			return fmt.Sprintf("the immediate repeat was not answered from the cache: Match returned a route that is not the entry stored under %q: %s", want, ctx)
 		}
 		if rt2 != r.GetRoute(rt.Name()) {
 			ev.Class("repeat-served-by-cached-copy")
